@@ -587,7 +587,7 @@ def auto_kalpha(job):
 
 
 def run_tree_job(job, body, site_default='diff', path_wall_s=20, tick_cap=40000, budget=1500, max_fail=3,
-                 hang_tags=True, quiet=False, witness_extra=None):
+                 hang_tags=True, quiet=False, witness_extra=None, extra_replay=None):
     """Explores one (family, options, shape) job.  ``body(A, B, objA, objB, job) -> [failure dict]`` is the property
     oracle over one run of the real engine; it is executed symbolically here and concretely in replay()."""
     install(quiet=quiet)
@@ -629,6 +629,9 @@ def run_tree_job(job, body, site_default='diff', path_wall_s=20, tick_cap=40000,
         if fails:
             rep = replay(wit, body, job, wall=job.get('replay_wall', 15))
             rtags = set(f['tag'] for f in rep)
+            if extra_replay is not None and not (set(f['tag'] for f in fails) & rtags) and counters.get('extra_replays', 0) < 4:
+                counters['extra_replays'] = counters.get('extra_replays', 0) + 1
+                rtags |= set(extra_replay(wit, fails) or ())
             for f in fails:
                 if f['tag'].startswith('exception'):
                     counters['exception_paths'] += 1
@@ -770,6 +773,8 @@ def families(tier, want=None):
         ('LL-21-2', L(L(I(), I()), L(I())), L(L(I(), I(2)))),
         ('LLi-1i-i1', L(L(I()), I(2)), L(I(2), L(I()))),
         ('LiL', L(I(), L(I(), I(2))), L(I(), L(I(2), I()))),      # last cell of the outer list edit is itself a list edit
+        ('LiL11', L(I(), L(I(), I())), L(I(), L(I(), I()))),      # ... with equal-size members (the D5 shape)
+        ('LLs', L(L(I(), I()), I()), L(L(I(), I()), I())),        # first cell is a list edit, shared suffix possible
         ('LD', L(D(I(), I(2)), I()), L(D(I(), I()), I(2))),
         ('LD2', L(D(I()), D(I(2))), L(D(I(2)), D(I()), D(I()))),
         ('DL', D(L(I(), I(2)), I()), D(L(I(), I()), I(2))),
@@ -883,7 +888,7 @@ TREE_FILES = ['graphtage/levenshtein.py', 'graphtage/multiset.py', 'graphtage/se
 
 def tree_bounds_text(tier):
     if tier == 'quick':
-        return ("lists n,m<=3 x 3 list modes; multisets n+m<=5; mappings n,m<=3 x {none, auto (n+m<=4), match (n+m<=4)}; 12 depth-2 "
+        return ("lists n,m<=3 x 3 list modes; multisets n+m<=5; mappings n,m<=3 x {none, auto (n+m<=4), match (n+m<=4)}; 14 depth-2 "
                 "nestings (list/dict of list/dict) x {auto,none} (+match for three) x list on/off; 13 cross-kind pairs (null/bool/str/"
                 "int/list/dict/multiset); plist wrappers; leaf lengths mixed 1/2; value alphabet 3, key alphabet = number of keys "
                 "of both mappings (every shared/unshared key pattern is realisable); every leaf value and key symbolic")
